@@ -262,7 +262,69 @@ def check_long_memo(case):
     return OK(len(types_of_L) >= 2, f"long_memo_types{min(len(types_of_L), 4)}")
 
 
-CHECKS = {"basis": check_basis, "history": check_history, "long_memo": check_long_memo}
+def _trace_files():
+    from permuta.permutils import finite, insertion_encodable, polynomial
+
+    return {finite.__file__, insertion_encodable.__file__, polynomial.__file__}
+
+
+LINE_BUDGET = 2000000
+
+
+def check_disturbed(case):
+    """'Not on earlier calls': an earlier call that was aborted part-way by an asynchronous
+    exception (at a generated line of the three verdict modules) is an earlier call, and so is one
+    that is still running in another thread.  Afterwards / meanwhile every verdict equals the
+    structure theorem's.  case: {"mode": "abort", "first": [fname, basis], "k": int, "then": [[fname, basis]..]}
+    or {"mode": "threads", "calls": [[fname, basis]..], "choices": [..]}"""
+    from .. import disturb
+
+    files = _trace_files()
+    from permuta.permutils import finite, insertion_encodable, polynomial
+
+    disturb.reset_memos([finite, insertion_encodable, polynomial])
+
+    def lib_call(fname, basis):
+        return lambda: FUNCS[fname][0]([Perm(p) for p in basis])
+
+    def want(fname, basis):
+        return FUNCS[fname][1]([tuple(p) for p in basis])
+
+    if case["mode"] == "abort":
+        fname, basis = case["first"]
+        k = case["k"]
+        if "kfrac" in case:
+            # abort point as a fraction of the undisturbed call's traced lines (dry run, then reset)
+            _, total = disturb.count_lines(lib_call(fname, basis), files)
+            disturb.reset_memos([finite, insertion_encodable, polynomial])
+            k = 1 + int(case["kfrac"] * total) % max(total, 1)
+        status, val, lines = disturb.abort_at(lib_call(fname, basis), files, k)
+        if status == "done" and val != want(fname, basis):
+            return BAD("undisturbed_" + fname, {"basis": basis, "got": val})
+        for f2, b2 in case["then"]:
+            st2, got = disturb.bounded(lib_call(f2, b2), files, LINE_BUDGET)
+            if st2 == "budget":
+                return BAD("no_termination_after_aborted_call", {"aborted": [fname, basis, k], "call": [f2, b2]})
+            if got != want(f2, b2):
+                return BAD("wrong_after_aborted_call", {"aborted": [fname, basis, k], "call": [f2, b2], "got": got, "want": want(f2, b2)})
+        return OK(status == "aborted" and lines >= 3, "abort_mid_call" if status == "aborted" else "abort_point_beyond_call")
+    calls = case["calls"]
+    s, stalled = disturb.interleave([lib_call(f, b) for f, b in calls], files, case["choices"], max_steps=LINE_BUDGET)
+    if stalled:
+        raise engine.HarnessError("C13 disturbed: scheduler stalled")
+    if s.overrun:
+        return BAD("no_termination_under_interleaving", {"calls": calls})
+    for i, ((f, b), (status, got)) in enumerate(zip(calls, s.results)):
+        if status == "exc":
+            if not engine.is_lib_exception(s.exceptions[i]):
+                raise engine.HarnessError(f"C13 disturbed: harness exception {got}")
+            return BAD("exception_under_interleaving", {"call": [f, b], "exc": got, "switches": s.switches})
+        if status != "ok" or got != want(f, b):
+            return BAD("wrong_under_interleaving", {"call": [f, b], "got": got, "want": want(f, b), "switches": s.switches})
+    return OK(s.switches >= 2, "interleaved", key=engine.jdump(calls) + "|" + str(hash(tuple(s.trace))))
+
+
+CHECKS = {"basis": check_basis, "history": check_history, "long_memo": check_long_memo, "disturbed": check_disturbed}
 
 
 # ------------------------------------------------------------------ generators
@@ -378,6 +440,35 @@ def long_memo_cases(draw):
     return {"L": L, "shorts": singles, "masks": masks}
 
 
+@st.composite
+def disturbed_cases(draw):
+    """fresh long elements (the memos are per permutation and process-wide: a new long element has
+    not been seen by this process) shared between the disturbed call and the later / parallel ones"""
+    longs = [draw(long_memo_cases())["L"] for _ in range(draw(st.integers(1, 2)))]
+    # companions: one short member for every class the long elements are not in (so that the
+    # verdicts are positive exactly when the long elements' classes are all known), optional
+    # members of the other classes, and free extras
+    have = {name for name in TEN for L in longs if in_class(tuple(L), name)}
+    needed = [list(draw(st.sampled_from(members()[name]))) for name in sorted(TEN) if name not in have]
+    optional = [list(draw(st.sampled_from(members()[name]))) for name in sorted(have) if draw(st.integers(0, 3)) == 0]
+    shorts = optional + draw(st.lists(structured_perm(), min_size=0, max_size=1))
+    # the memo tables are per family of verdicts: disturb and ask within one family
+    fn = st.sampled_from(draw(st.sampled_from([["is_polynomial", "is_non_polynomial"], ["is_insertion_encodable_rightmost", "is_insertion_encodable_maximum", "is_insertion_encodable"], sorted(FUNCS)])))
+
+    def basis():
+        keep_n = [p for p in needed if draw(st.integers(0, 7)) != 0]
+        keep_s = [p for p in shorts if draw(st.booleans())]
+        return longs + keep_n + keep_s
+
+    if draw(st.booleans()):
+        return {"mode": "abort", "first": [draw(fn), basis()], "k": 0, "kfrac": draw(st.floats(0, 0.999)), "then": [[draw(fn), basis()] for _ in range(draw(st.integers(1, 3)))]}
+    calls = [[draw(fn), basis()] for _ in range(draw(st.integers(2, 3)))]
+    choices = []
+    for _ in range(draw(st.integers(2, 40))):
+        choices.extend([draw(st.integers(0, 2))] * draw(st.integers(1, 60)))
+    return {"mode": "threads", "calls": calls, "choices": choices}
+
+
 def shard_exhaustive(acc, shard, nshards, max_len, max_size):
     pats = [list(p) for p in ref.perms_upto(max_len, 1)]
     i = 0
@@ -392,6 +483,7 @@ def shard_generated(acc, shard, nshards, n_basis, n_hist, nmax):
     engine.hyp_run(acc, "basis", check_basis, basis_cases(4 if nmax <= 7 else 12, nmax), n_basis, shard)
     engine.hyp_run(acc, "history", check_history, history_cases(), n_hist, shard)
     engine.hyp_run(acc, "long_memo", check_long_memo, long_memo_cases(), max(10, n_hist // 4), shard)
+    engine.hyp_run(acc, "disturbed", check_disturbed, disturbed_cases(), max(30, n_hist), shard)
 
 
 def run(acc, tier):
